@@ -31,7 +31,7 @@ COMPONENTS = {"real": ["setigen.frame (add_noise, add_noise_from_obs, zero_data,
 ASSUMPTIONS = ["statistical clauses are judged at 7 sigma (two-sided 2.6e-12 per test) on >= 16384 pixels; smaller distribution errors pass",
                "a frame that holds signals but no noise yet may report either the parameters or a re-estimate",
                "own sigma-clipping (median centre, 3 sigma, 5 iterations) compared at 1e-9"]
-PROBES = ["first_noise_on_empty", "later_noise_reestimated", "zero_data_then_noise", "table_share_index", "table_independent",
+PROBES = ["array_background_reestimated", "first_noise_on_empty", "later_noise_reestimated", "zero_data_then_noise", "table_share_index", "table_independent",
           "shipped_table", "truncated_floor_checked", "moment_test_chi2", "moment_test_gaussian", "half_integer_resolution",
           "stream_quadrature", "array_background_quadrature", "signal_before_noise", "preloaded_frame",
           "estimates_not_observed_after_op", "two_resolutions_in_one_process", "rejected_noise_call"]
@@ -102,6 +102,9 @@ def generate(rng, tier):
         for _ in range(rng.randint(1, 6)):
             sops.append({"target": rng.choice(["x", "y", "bg_x", "bg_y"]), "ant": rng.randrange(max(n_ant, 1)),
                          "mean": rng.choice([0.0, 1.0]), "std": rng.choice([1.0, 0.5, 2.0, 3.0, 1e-3])})
+            if n_ant and sops and rng.random() < 0.2:
+                sops.append({"target": rng.choice(["bg_x", "bg_y", "bg_x", "x"]), "ant": rng.randrange(max(n_ant, 1)),
+                             "update": rng.choice([100, 1000, 10000]), "mean": 0.0, "std": 0.0})
         streams = {"n_ant": n_ant, "pols": rng.choice([1, 2]), "ops": sops, "seed": rng.randrange(1 << 30)}
     return {"seams": {"clock_origin": 1.7e9, "clock_jitter_seed": rng.randrange(1 << 20), "entropy_salt": rng.randrange(1 << 20),
                       "scratch": "c11"},
@@ -469,7 +472,18 @@ def _streams(ctx, st):
         p = 0 if t.endswith("x") else 1
         if p >= pols:
             p = 0
-        if t.startswith("bg"):
+        if op.get("update"):
+            # the stream's own deviation is replaced by an estimate from its samples (the documented way to account
+            # for custom sources); whatever that estimate is, the totals must combine it in quadrature from now on
+            if t.startswith("bg"):
+                arr.bg_streams[p].update_noise(op["update"])
+                bg[p] = float(arr.bg_streams[p].noise_std) ** 2
+                ctx.hit("array_background_reestimated")
+            else:
+                a = op["ant"] % n_ant
+                arr.antennas[a].streams[p].update_noise(op["update"])
+                own[(a, p)] = float(arr.antennas[a].streams[p].noise_std) ** 2
+        elif t.startswith("bg"):
             arr.bg_streams[p].add_noise(op["mean"], op["std"])
             bg[p] = bg.get(p, 0.0) + op["std"] ** 2
             ctx.hit("array_background_quadrature")
